@@ -44,7 +44,7 @@ type scenario struct {
 	Outcomes  []outc  `json:"outcomes"`  // per attempt in entry order
 	Mode      string  `json:"mode"`      // gated: the harness releases attempts in Release order | auto: attempts finish by themselves
 	Release   []int   `json:"release"`   // gated: permutation of the attempts that can start
-	Placement string  `json:"placement"` // alone | retry(hedge) | timeout(hedge) | fallback(hedge)
+	Placement string  `json:"placement"` // alone | retry(hedge) | timeout(hedge) | fallback(hedge) | hedge(timeout)
 	Async     bool    `json:"async"`
 }
 
@@ -238,6 +238,9 @@ func run(sc scenario, propID string) (out runOut) {
 		policies = []failsafe.Policy[int]{timeout.With[int](time.Hour), hp}
 	case "fallback(hedge)":
 		policies = []failsafe.Policy[int]{fallback.BuilderWithResult[int](fbVal).HandleErrors(errN).Build(), hp}
+	case "hedge(timeout)":
+		// a Timeout that never fires between the hedge policy and the function: every attempt runs on a further copy
+		policies = []failsafe.Policy[int]{hp, timeout.With[int](time.Hour)}
 	default:
 		policies = []failsafe.Policy[int]{hp}
 	}
@@ -498,7 +501,7 @@ func genScenario(t *rapid.T) scenario {
 	sc := scenario{MaxHedges: rapid.IntRange(0, 4).Draw(t, "maxHedges")}
 	sc.Mode = rapid.SampledFrom([]string{"gated", "gated", "auto"}).Draw(t, "mode")
 	sc.Cancel = rapid.SampledFrom([]string{"default", "result", "errors", "if"}).Draw(t, "cancel")
-	sc.Placement = rapid.SampledFrom([]string{"alone", "alone", "retry(hedge)", "timeout(hedge)", "fallback(hedge)"}).Draw(t, "placement")
+	sc.Placement = rapid.SampledFrom([]string{"alone", "alone", "retry(hedge)", "timeout(hedge)", "fallback(hedge)", "hedge(timeout)"}).Draw(t, "placement")
 	sc.Async = rapid.Bool().Draw(t, "async")
 	for i := 0; i < sc.MaxHedges; i++ {
 		ds := []int64{0, 200, 1000, 3000, 5000}
@@ -593,7 +596,8 @@ func TestHedge(t *testing.T) {
 func TestHedgedStats(t *testing.T) {
 	st := harness.NewStats("TestHedgedStats")
 	defer st.Flush()
-	rapid.Check(t, hedgeProperty("C17", "TestHedgedStats", st, isStats))
+	// (IsHedge marking is named by both properties: it is reported by both checks)
+	rapid.Check(t, hedgeProperty("C17", "TestHedgedStats", st, func(s string) bool { return isStats(s) || s == "first-attempt-marking" }))
 }
 
 func TestRegress(t *testing.T) {
